@@ -6,7 +6,9 @@
 //! property statement demands). A tree is printed with minimal parentheses according to the
 //! documented table (levels: and or 1; == != 2; `..` 3; < <= > >= 5; + - and unary minus 6; * / 7;
 //! % 8; ^ 9; not 10; binary operators left associative; a prefix operator's operand extends over
-//! every operator that binds tighter than the prefix operator). The printed text is parsed back
+//! every operator that binds tighter than the prefix operator, wherever the prefix operator stands: also
+//! `a * -b / c` is `a * (-(b / c))`, because the only other reading, `(a * -b) / c`, would make this one
+//! minus bind tighter than `/`, against the table). The printed text is parsed back
 //! by a reference parser for the documented table (must give the tree: machinery check), the
 //! tree is evaluated by a reference evaluator, and the real pipeline must print the same value
 //! or stop with the same documented runtime error.
@@ -427,7 +429,8 @@ pub struct Table {
     right_assoc: bool,
     /// `-` directly followed by an int literal is one atomic term
     neg_lit_atomic: bool,
-    /// a prefix operator met as right operand of a tighter operator keeps that operator's level
+    /// (alternative reading, contradicts the table) a prefix operator met as right operand of a tighter
+    /// operator keeps that operator's level: `a * -b / c` = `(a * -b) / c`
     prefix_keeps_context: bool,
 }
 
@@ -737,7 +740,10 @@ fn alternatives() -> Vec<Alt> {
     let mut modmul = d;
     // `%` at the level of `*` and `/` (as in C)
     modmul.level[Op::Mod.idx()] = 7;
+    let mut keepctx = d;
+    keepctx.prefix_keeps_context = true;
     vec![
+        Alt { name: "prefix minus keeps the level of the tighter operator on its left", tb: keepctx },
         Alt { name: "all binary operators on one level", tb: flat },
         Alt { name: "right associative", tb: right },
         Alt { name: "unary minus binds tightest", tb: negtight },
@@ -792,11 +798,14 @@ impl Prop for C31 {
         keep_ctx.prefix_keeps_context = true;
         let mut atomic = doc;
         atomic.neg_lit_atomic = true;
+        let mut atomic_keep_ctx = atomic;
+        atomic_keep_ctx.prefix_keeps_context = true;
         let alts = alternatives();
 
         let mut cases = vec![];
-        // per case: accepted outcomes (empty = unspecified), class when unspecified, root-cause candidate
-        let mut expect: Vec<(Vec<Out>, &'static str, Out)> = vec![];
+        // per case: accepted outcomes (empty = unspecified), class when unspecified, root-cause candidate,
+        // "a prefix minus on a non-literal stands in the context of a tighter operator and is followed by one"
+        let mut expect: Vec<(Vec<Out>, &'static str, Out, bool)> = vec![];
         for it in items {
             let p = print(&it.e, it.set);
             let back = parse(&p.toks, doc);
@@ -816,9 +825,15 @@ impl Prop for C31 {
 
             let o1 = eval(&it.e, it.set, true);
             let o2 = eval(&it.e, it.set, false);
-            let ambiguous = parse(&p.toks, keep_ctx).as_ref() != Some(&it.e);
-            let acc: (Vec<Out>, &'static str) = if ambiguous {
-                (vec![], "unspecified: unary minus as right operand of a tighter operator, followed by an operator tighter than unary minus")
+            // Some prefix minus is the right operand of an operator tighter than level 6 and its operand is followed by
+            // another operator tighter than level 6 (`a * -b / c`). The table decides these: the operand of the minus
+            // extends over `/` exactly as in `-b / c` at the start of an expression. The one exception is kept as it was:
+            // in the negative-literal stratum, when every such minus stands directly before a numeric literal
+            // (`a * -2 / c`; the two readings with the literal as one token agree), the case stays Unspecified.
+            let ctx_sensitive = parse(&p.toks, keep_ctx).as_ref() != Some(&it.e);
+            let ctx_sensitive_nonliteral = ctx_sensitive && (!stratum_n || parse(&p.toks, atomic) != parse(&p.toks, atomic_keep_ctx));
+            let acc: (Vec<Out>, &'static str) = if ctx_sensitive && !ctx_sensitive_nonliteral {
+                (vec![], "unspecified: negative literal as right operand of a tighter operator, followed by an operator tighter than unary minus")
             } else if o1 == Out::Unspec || o2 == Out::Unspec {
                 (vec![], "unspecified: negative exponent")
             } else if o1 == o2 {
@@ -830,12 +845,16 @@ impl Prop for C31 {
                 Some(t) if t != it.e => eval_typed(&t, it.set, true),
                 _ => Out::Unspec,
             };
-            expect.push((acc.0, acc.1, root));
+            let asserted_ctx = ctx_sensitive_nonliteral && !acc.0.is_empty();
+            expect.push((acc.0, acc.1, root, asserted_ctx));
         }
 
         run_cases(out, lo as u64, &cases, 300, COpts::default(), ROpts::default(), |out, k, c, r| {
             let it = &items[k];
-            let (accepted, unspec_class, root) = &expect[k];
+            let (accepted, unspec_class, root, asserted_ctx) = &expect[k];
+            if *asserted_ctx {
+                out.count("asserted: prefix minus on a non-literal as right operand of * / % ^, followed by * / % ^ (table reading)", 1);
+            }
             let p = print(&it.e, it.set);
             // evidence: which alternative readings of the same text this case tells apart from the documented one
             if !accepted.is_empty() {
@@ -918,8 +937,9 @@ impl Prop for C31 {
              the i-th leaf (left to right) has the value {:?} / {:?} / {:?}{}; variables are fed by the host; printed with minimal parentheses for the documented table, \
              round-tripped through a reference parser, evaluated by the reference evaluator (C15 integer model, short-circuit and/or, either total order on bool accepted). \
              {} cases in the main stratum, {} cases in the separate stratum 'negative literal directly followed by * / % ^' (own units). \
-             Unspecified (not asserted): negative exponents; a unary minus that is the right operand of a tighter operator and is followed by another operator tighter than unary minus \
-             (e.g. `a ^ -b * c`: the table does not say whether the minus keeps the level of `^`). \
+             A prefix minus on a non-literal that is the right operand of * / % ^ and is followed by * / % ^ is asserted with the table reading (`a * -b / c` = a * (-(b / c)), like `-b / c` at the start of an expression). \
+             Unspecified (not asserted): negative exponents; in the negative-literal stratum, a minus directly before a numeric literal that is the right operand of a tighter operator and is followed by \
+             another operator tighter than unary minus (`a * -2 / c`). \
              Non-trivial: the printed text evaluates differently (or is ill-typed) under at least one of the alternative readings listed in the counters",
             match tier {
                 Tier::Quick => "all trees of depth <= 3 with leaf forms {int variable, int literal, bool variable, string variable} (so `-2 % x` and `(-2) % x` have depth 3), plus all trees of depth <= 2 \
@@ -939,6 +959,7 @@ impl Prop for C31 {
     fn assumptions(&self) -> Vec<String> {
         vec![
             "the table is read in the usual precedence-climbing way: the operand of a prefix operator extends over every following operator that binds tighter than the prefix operator (so `-x % 3` is -(x % 3) and `-x ^ 2` is -(x ^ 2), `not a == b` is (not a) == b, `a .. b == c` is (a .. b) == c)".into(),
+            "this holds wherever the prefix operator stands: in `a * -b / c` the operand of the minus is `b / c` (value a * (-(b / c))); the only other structurally possible reading, (a * -b) / c, would make that minus bind tighter than `/` although the table puts unary minus (6) below `* /` (7), `%` (8) and `^` (9), and would make the grouping of `-b / c` depend on what precedes it; operators.md says nothing to the contrary".into(),
             "`>=` on bool operands is not generated: `true >= true` is wrong for a reason unrelated to parsing (C24)".into(),
             "the order of false and true is not documented: a result is accepted if it matches the documented grouping under either order".into(),
             "`not a == b` and `not (a == b)` have the same value for all booleans, so the relative level of `not` and `==`/`!=` can only be observed through typing".into(),
